@@ -68,11 +68,18 @@ Proof.
 Qed.
 
 (* generate => verify exactly the passwords with the same key block (C02 supplies this for the real hash) *)
-Lemma verify_gen pw h pw' : gen pw = Ok h -> (verify h pw' = true <-> hd 0 pw <> 0 /\ kb pw = kb pw').
+Lemma verify_gen pw pw' : verify (gen pw) pw' = true <-> hd 0 pw <> 0 /\ kb pw = kb pw'.
 Proof.
-  destruct pw as [|ch r]; [discriminate|]. unfold gen. destruct (Z.eqb_spec ch 0) as [->|N]; intros H; inversion H; subst.
+  destruct pw as [|ch r]; [cbn; split; [discriminate|intros [H0 _]; congruence]|].
+  unfold gen. destruct (Z.eqb_spec ch 0) as [->|N].
   - unfold verify. cbn [hd]. split; [discriminate|intros [H0 _]; congruence].
   - unfold verify, eqbl. cbn [hd]. rewrite Proofs.C15.eqbl_spec. split; [intros E; split; [exact N|exact E]|intros [_ E]; exact E].
+Qed.
+
+(* the empty password, and one that starts with NUL, generate the hash that nothing verifies *)
+Lemma gen_empty_locks pw pw' : hd 0 pw = 0 -> verify (gen pw) pw' = false.
+Proof.
+  intros H. destruct (verify (gen pw) pw') eqn:E; [|reflexivity]. apply verify_gen in E. destruct E as [E _]. contradiction.
 Qed.
 
 (* ------------------------------------------------------------------ the table predicates of the statements *)
@@ -172,20 +179,20 @@ Qed.
 
 (* ------------------------------------------------------------------ registration *)
 
-Theorem register_exact c name pw email h : gen pw = Ok h ->
+Theorem register_exact c name pw email :
   let rc := register c name pw email in
   if acceptable c name && negb (taken c name) && room c
   then exists k, find_empty (slots (after_clean c)) = Some k /\ fst rc = ROk (cid name) /\
-       slots (snd rc) = set_nth k (mkAcct (cid name) h (cstr_field (Z.to_nat ptttype.EMAILSZ) email) false false) (slots (after_clean c))
+       slots (snd rc) = set_nth k (mkAcct (cid name) (gen pw) (cstr_field (Z.to_nat ptttype.EMAILSZ) email) false false) (slots (after_clean c))
   else (exists e, fst rc = RErr e) /\ slots (snd rc) = slots c.
 Proof.
-  intros Hg. cbv zeta. unfold register, acceptable.
+  cbv zeta. unfold register, acceptable.
   destruct (id_valid name) eqn:Ev; [|cbn; split; [eexists; reflexivity|reflexivity]].
   destruct (ci_eqb (cid name) ptttype.STR_REGNEW) eqn:E1; [cbn; split; [eexists; reflexivity|reflexivity]|].
   destruct (ci_eqb (cid name) ptttype.STR_GUEST) eqn:E2; [cbn; split; [eexists; reflexivity|reflexivity]|].
   destruct (existsb (fun r => ci_eqb (cid name) r) (reserved c)) eqn:E3; [cbn; split; [eexists; reflexivity|reflexivity]|].
   cbn [negb orb andb].
-  rewrite Hg. pose proof (valid_nonempty _ Ev) as Hne.
+  pose proof (valid_nonempty _ Ev) as Hne.
   destruct (lookup (slots c) (cid name)) as [k0|] eqn:El.
   - assert (Ht : taken c name = true).
     { destruct (taken c name) eqn:Et; [reflexivity|]. apply (lookup_taken c name Hne) in Et. congruence. }
@@ -240,20 +247,18 @@ Qed.
 Theorem change_needs_old c name old new :
   let rc := change_pw c name old new in
   (forall p, fst rc = ROk p ->
-     exists k h, lookup (slots c) (cid name) = Some k /\ id_valid name = true /\
-       verify (a_pw (nth k (slots c) no_acct)) old = true /\ gen new = Ok h /\
+     exists k, lookup (slots c) (cid name) = Some k /\ id_valid name = true /\
+       verify (a_pw (nth k (slots c) no_acct)) old = true /\
        let a := nth k (slots c) no_acct in
-       slots (snd rc) = set_nth k (mkAcct (a_id a) h (a_email a) (a_old a) (a_xempt a)) (slots c)) /\
+       slots (snd rc) = set_nth k (mkAcct (a_id a) (gen new) (a_email a) (a_old a) (a_xempt a)) (slots c)) /\
   ((forall k, lookup (slots c) (cid name) = Some k -> verify (a_pw (nth k (slots c) no_acct)) old = false) ->
      (exists e, fst rc = RErr e) /\ snd rc = c).
 Proof.
   cbv zeta. unfold change_pw. destruct (id_valid name); cbn [negb].
   - destruct (lookup (slots c) (cid name)) as [k|].
     + destruct (verify (a_pw (nth k (slots c) no_acct)) old) eqn:Ev.
-      * destruct (gen new) as [h| |] eqn:Eg; cbn; split; try (intros p H; discriminate).
-        -- intros p _. exists k, h. repeat split. exact Ev.
-        -- intros H. specialize (H k eq_refl). congruence.
-        -- intros H. specialize (H k eq_refl). congruence.
+      * cbn; split.
+        -- intros p _. exists k. repeat split. exact Ev.
         -- intros H. specialize (H k eq_refl). congruence.
       * cbn. split; [intros p H; discriminate|]. intros _. split; [eauto|reflexivity].
     + cbn. split; [intros p H; discriminate|]. intros _. split; [eauto|reflexivity].
@@ -283,8 +288,7 @@ Proof.
   - exists O. destruct (check_pw_exact c n p) as [H _]. rewrite H. apply same_except_refl.
   - unfold change_pw. destruct (id_valid n); cbn [negb]; [|exists O; apply same_except_refl].
     destruct (lookup (slots c) (cid n)) as [k|]; [|exists O; apply same_except_refl].
-    destruct (verify _ _); [|exists O; apply same_except_refl].
-    destruct (gen q); [exists k; apply same_except_set|exists O; apply same_except_refl|exists O; apply same_except_refl].
+    destruct (verify _ _); [exists k; apply same_except_set|exists O; apply same_except_refl].
   - unfold change_email. destruct (id_valid n); cbn [negb]; [|exists O; apply same_except_refl].
     destruct (lookup (slots c) (cid n)) as [k|]; [exists k; apply same_except_set|exists O; apply same_except_refl].
   - unfold exists_user. destruct (id_valid n); cbn [negb]; [|exists O; apply same_except_refl].
@@ -316,7 +320,6 @@ Proof.
   unfold register.
   destruct (_ || _ || _); [split; [reflexivity|exists O; left; reflexivity]|].
   destruct (existsb _ (reserved c)); [split; [reflexivity|exists O; left; reflexivity]|].
-  destruct (gen pw); try (split; [reflexivity|exists O; left; reflexivity]).
   destruct (lookup (slots c) (cid name)); [split; [reflexivity|exists O; left; reflexivity]|].
   destruct (find_empty (slots (after_clean c))) as [k|]; cbn [snd].
   - unfold with_slots. cbn [slots]. split; [rewrite set_nth_length; exact Hlen|]. exists k. intros j Hj.
@@ -371,7 +374,6 @@ Lemma step_WF c o : WF c -> WF (snd (step c o)).
 Proof.
   intros W. destruct o as [n p e|n p|n p|n p q|n e|n|n|]; cbn [step].
   - unfold register. destruct (_ || _ || _) eqn:Ebad; [exact W|]. destruct (existsb _ (reserved c)); [exact W|].
-    destruct (gen p) as [h| |]; try exact W.
     destruct (lookup (slots c) (cid n)) eqn:El; [exact W|].
     assert (Hv : id_valid n = true) by (destruct (id_valid n); [reflexivity|discriminate]).
     pose proof (valid_nonempty _ Hv) as Hne.
@@ -396,8 +398,7 @@ Proof.
     destruct (lookup_some _ _ _ El) as (a1 & Ha & _). eapply WF_set_same_id; [exact W|exact Ha|]. cbn. rewrite (nth_nth_error _ _ _ _ Ha). reflexivity.
   - destruct (check_pw_exact c n p) as [H _]. rewrite H. exact W.
   - unfold change_pw. destruct (id_valid n); cbn [negb]; [|exact W].
-    destruct (lookup (slots c) (cid n)) as [k|] eqn:El; [|exact W]. destruct (verify _ _); [|exact W].
-    destruct (gen q); try exact W. cbn [snd].
+    destruct (lookup (slots c) (cid n)) as [k|] eqn:El; [|exact W]. destruct (verify _ _); [|exact W]. cbn [snd].
     destruct (lookup_some _ _ _ El) as (a1 & Ha & _). eapply WF_set_same_id; [exact W|exact Ha|]. cbn. rewrite (nth_nth_error _ _ _ _ Ha). reflexivity.
   - unfold change_email. destruct (id_valid n); cbn [negb]; [|exact W].
     destruct (lookup (slots c) (cid n)) as [k|] eqn:El; [|exact W]. cbn [snd].
@@ -451,15 +452,15 @@ Proof. intros H. induction l as [|a l IH]; [reflexivity|]. cbn. rewrite H, IH. r
 Lemma nth_set_same {A} (v d : A) : forall l k, (k < length l)%nat -> nth k (set_nth k v l) d = v.
 Proof. induction l as [|a l IH]; intros [|k] H; cbn in *; try lia; [reflexivity|]. apply IH. lia. Qed.
 
-Theorem register_then_login c name pw email h name' pw' :
-  gen pw = Ok h -> acceptable c name && negb (taken c name) && room c = true ->
+Theorem register_then_login c name pw email name' pw' :
+  acceptable c name && negb (taken c name) && room c = true ->
   id_valid name' = true -> key (cid name') = key (cid name) ->
   let c' := snd (register c name pw email) in
   (fst (login c' name' pw') = ROk (cid name) <-> hd 0 pw <> 0 /\ kb pw = kb pw') /\
   (fst (login c' name' pw') = ROk (cid name) \/ fst (login c' name' pw') = RErr E_USERID).
 Proof.
-  intros Hg Hacc Hv' Hkey. cbv zeta.
-  pose proof (register_exact c name pw email h Hg) as R. cbv zeta in R. rewrite Hacc in R.
+  intros Hacc Hv' Hkey. cbv zeta.
+  pose proof (register_exact c name pw email) as R. cbv zeta in R. rewrite Hacc in R.
   destruct R as (k & Hk & _ & Hs).
   apply andb_true_iff in Hacc. destruct Hacc as [Hacc _]. apply andb_true_iff in Hacc. destruct Hacc as [Hacc Hnt].
   unfold acceptable in Hacc.
@@ -471,7 +472,7 @@ Proof.
   pose proof (lookup_after_clean_none c _ Hne Hnt) as Hl1.
   pose proof Hk as Hk2. apply find_idx_some in Hk2. destruct Hk2 as (a0 & Hk0 & _ & _).
   assert (Hlt : (k < length (slots (after_clean c)))%nat) by (apply nth_error_Some; congruence).
-  set (a' := mkAcct (cid name) h (cstr_field (Z.to_nat ptttype.EMAILSZ) email) false false) in *.
+  set (h := gen pw) in *. set (a' := mkAcct (cid name) h (cstr_field (Z.to_nat ptttype.EMAILSZ) email) false false) in *.
   assert (Hl : lookup (slots (snd (register c name pw email))) (cid name') = Some k).
   { rewrite Hs. unfold lookup in *. destruct (is_empty (cid name')) eqn:E1; [apply empty_spec in E1; contradiction|].
     destruct (is_empty (cid name)) eqn:E2; [apply empty_spec in E2; contradiction|].
@@ -501,10 +502,10 @@ Proof.
   assert (Hshown : shown_id a' = cid name) by (unfold shown_id, a'; cbn [a_id]; rewrite Hvalid; reflexivity).
   destruct (verify h pw') eqn:Ever.
   - destruct L as [L _]. rewrite Hshown in L. split; [|left; exact L].
-    split; [intros _; apply (verify_gen pw h pw' Hg); exact Ever|intros _; exact L].
+    split; [intros _; apply (verify_gen pw pw'); exact Ever|intros _; exact L].
   - destruct L as [L _]. split; [|right; exact L]. split.
     + intros E. rewrite L in E. discriminate.
-    + intros Hq. apply (verify_gen pw h pw' Hg) in Hq. congruence.
+    + intros Hq. apply (verify_gen pw pw') in Hq. fold h in Hq. congruence.
 Qed.
 
 (* ------------------------------------------------------------------ non-vacuity *)
